@@ -39,7 +39,7 @@ def san_run(ctx, exe, args, what, stdin=None, env=None, files=None, variant='asa
 
 
 def run(ctx):
-    ctx.rule = ('(1) whole program under gcc ASan+UBSan (hooks on): compression of generated inputs and decompression of valid, single-defect, '
+    ctx.rule = ('(1) whole program under gcc ASan+UBSan and under clang MSan (hooks on): compression of generated inputs and decompression of valid, single-defect, '
                 'mutated, planted-candidate and follower streams at 1-8 workers with granule overrides and perturbation; (2) in-process codec '
                 'harness (collect/encode/transmit/retrieve/decode/emit) under ASan+UBSan and clang MSan, and the decoder harness dec_h '
                 '(parse/retrieve/decode/emit with stepped input, tiny output buffers) on the same stream corpus under ASan+UBSan and MSan; '
@@ -108,6 +108,17 @@ def run(ctx):
             ctx.nt((hashlib.sha1(data).hexdigest()[:12], tuple(args), repr(sorted(env.items()))))
             ctx.count('asan_whole_program_' + what.split()[0])
     core.pmap(whole, jobs)
+    # the same whole-program jobs (a seeded half) under clang MemorySanitizer: decisions on uninitialised memory
+    # anywhere in the program, including option handling, scheduler and I/O code
+    msan = core.build_lbzip2('msan')
+
+    def whole_msan(j):
+        what, args, data, env = j
+        r = san_run(ctx, msan, args, what + ' [msan]', stdin=data, env=env, files={'stdin.bin': data[:2000000]}, variant='msan')
+        if r is not None:
+            ctx.nt((hashlib.sha1(data).hexdigest()[:12], tuple(args), repr(sorted(env.items())), 'msan'))
+            ctx.count('msan_whole_program_' + what.split()[0])
+    core.pmap(whole_msan, [j for k, j in enumerate(jobs) if k % 2 == 0 and len(j[2]) < 1500000])
     ctx.sample(dict(what=jobs[0][0], args=jobs[0][1], env=jobs[0][3], size=len(jobs[0][2])))
     # ---- (2) in-process codec harness
     for flavour in ('asan', 'msan'):
